@@ -33,7 +33,7 @@ func main() { vh.Main() }
 const modPrefix = "github.com/smart-core-os/sc-golang/"
 
 var workloadNames = []string{"value", "collection", "router", "bus", "wrap", "group", "electric_waste", "parent_metadata",
-	"traits_a", "traits_b", "gen_routers", "wrap_streams"}
+	"traits_a", "traits_b", "gen_routers", "wrap_streams", "wrap_reuse"}
 
 func verifRoot() string {
 	if d := os.Getenv("VERIF_ROOT"); d != "" {
@@ -95,6 +95,7 @@ type access struct {
 	Frames []string `json:"frames"`        // "func file:line"
 	Top    string   `json:"top"`           // "pkg/x/file.go:Recv.Func" of the innermost sc-golang frame, "" if none
 	Pkg    string   `json:"pkg,omitempty"` // package directory of Top
+	Sites  []string `json:"-"`             // every sc-golang frame, as "pkg/x/file.go:Recv.Func"
 }
 type race struct {
 	Workload string   `json:"workload"`
@@ -190,8 +191,9 @@ func parseRaces(log, workload, repo string) []race {
 			for j := 0; j+1 < len(body); j += 2 {
 				loc := strings.Fields(body[j+1])[0]
 				a.Frames = append(a.Frames, body[j]+" "+loc)
-				if a.Top == "" {
-					if s, p, ok := normFrame(body[j], loc, repo); ok {
+				if s, p, ok := normFrame(body[j], loc, repo); ok {
+					a.Sites = append(a.Sites, s)
+					if a.Top == "" {
 						a.Top, a.Pkg = s, p
 					}
 				}
@@ -311,7 +313,7 @@ func genC11(o *vcoq.Out, r *vcoq.Rand, tier string) error {
 		"KReasons: the harness's count, per accepting branch of the model's compatibility check (lock / publication / go statement / WaitGroup / channel close / construction / same thread / closing thread / none), of all ordered conflicting site pairs, compared with the model's own count on Gen/Locks.v; no pair may be 'none'. " +
 		"KMutable: one case per location written after construction, with the reasons that order those writes against every conflicting site (recomputed by the model); none may be missing. " +
 		"Table: every struct field of pkg/resource, internal/minibus, pkg/router, pkg/wrap, pkg/group and every package under pkg/trait (protobuf messages excluded), the elements of slice/map fields incl. local aliases of them, and the locals captured by goroutines. " +
-		"Workloads: 12 programs (value, collection, router, bus, wrap, group, electric+waste, parent+metadata, all 34 trait packages through model + server + wrapped client in traits_a/traits_b, generated routers with concurrent Add/Get/Remove and routed streams, many concurrent streams on one wrapped client), rounds of 250 ms on fresh objects, 4-16 goroutines per round chosen from the seed, " +
+		"Workloads: 13 programs (value, collection, router, bus, wrap, group, electric+waste, parent+metadata, all 34 trait packages through model + server + wrapped client in traits_a/traits_b, generated routers with concurrent Add/Get/Remove and routed streams, many concurrent streams on one wrapped client, callers and handlers that reuse their request/reply/stream messages around calls whose context ends before the handler replies), rounds of 250 ms on fresh objects, 4-16 goroutines per round chosen from the seed, " +
 		"random mixes of reads/writes/subscribes/cancels incl. generated ids, interceptors and consumers that read what they are given. Every distinct race (pair of innermost sc-golang frames) is reported as a direct violation."
 	repo := repoDir()
 	root := verifRoot()
@@ -456,6 +458,34 @@ func genC11(o *vcoq.Out, r *vcoq.Rand, tier string) error {
 
 	// the accepting branch of every conflicting pair (mirror of Lockset.why), checked against the model
 	hist, muts := reasonStats(tb)
+	// witness: a race report of this run one of whose stacks passes through a function that has a row of loc
+	// (the failing input that goes with a location whose writes the table cannot order)
+	witness := func(loc string) map[string]any {
+		fns := map[string]bool{}
+		for _, s := range byLoc[loc] {
+			fns[s.Fn] = true
+		}
+		for _, cls := range order {
+			rc := distinct[cls]
+			for _, a := range []access{rc.A, rc.B} {
+				for _, st := range a.Sites {
+					if fns[st] {
+						return map[string]any{"race_class": cls, "workload": rc.Workload, "seed": o.Seed, "duration": dur.String(), "report": rc.Accesses,
+							"how": "cd harness && go build -race -tags verif -o ../.build/c11w-race ./c11w && GORACE=halt_on_error=0 ../.build/c11w-race -workload " + rc.Workload + " -seed " + fmt.Sprint(o.Seed) + " -dur " + dur.String()}
+					}
+				}
+			}
+		}
+		return nil
+	}
+	var noneWitness map[string]any
+	for _, m := range muts {
+		for _, r := range m.Reasons {
+			if r == "none" && noneWitness == nil {
+				noneWitness = witness(m.Loc)
+			}
+		}
+	}
 	{
 		var keys []string
 		for k := range hist {
@@ -473,7 +503,11 @@ func genC11(o *vcoq.Out, r *vcoq.Rand, tier string) error {
 		for _, k := range keys {
 			tags = append(tags, "reason:"+k)
 		}
-		o.Add(vcoq.Case{Coq: coq, JSON: map[string]any{"reason_histogram": js}, Key: coq, NonTrivial: true, Tags: tags})
+		cjs := map[string]any{"reason_histogram": js}
+		if noneWitness != nil {
+			cjs["failing_input"] = noneWitness
+		}
+		o.Add(vcoq.Case{Coq: coq, JSON: cjs, Key: coq, NonTrivial: true, Tags: tags})
 	}
 	for _, m := range muts {
 		items := make([]string, len(m.Reasons))
@@ -483,8 +517,15 @@ func genC11(o *vcoq.Out, r *vcoq.Rand, tier string) error {
 			tags = append(tags, "late-write-ordered-by:"+r)
 		}
 		coq := vcoq.App("KMutable", vcoq.Str(m.Loc), vcoq.Int(m.LateWrites), "["+strings.Join(items, "; ")+"]")
-		o.Add(vcoq.Case{Coq: coq, JSON: map[string]any{"loc": m.Loc, "late_writes": m.LateWrites, "reasons": m.Reasons, "writers": m.Writers},
-			Key: coq, NonTrivial: true, Tags: tags})
+		mjs := map[string]any{"loc": m.Loc, "late_writes": m.LateWrites, "reasons": m.Reasons, "writers": m.Writers}
+		for _, r := range m.Reasons {
+			if r == "none" {
+				if wt := witness(m.Loc); wt != nil {
+					mjs["failing_input"] = wt
+				}
+			}
+		}
+		o.Add(vcoq.Case{Coq: coq, JSON: mjs, Key: coq, NonTrivial: true, Tags: tags})
 	}
 
 	// evidence
